@@ -39,11 +39,12 @@ def types(names, gapfrac):
     if 'U' in names:
         t['U'] = S.design(3, pd=1.20, oftf=OFTF, clearance='mid', lowfi={'model': 'simple'})
     if 'D' in names:
+        # unequal wall thicknesses (inside out): a slip between the two walls must show
         t['D'] = S.design(3, pd=1.20, oftf=OFTF, clearance='mid', ducts=2, byp_t=0.002,
-                          bypass_fraction=0.1)
+                          bypass_fraction=0.1, duct_t=[0.0015, 0.003])
     if 'Ds' in names:
         t['Ds'] = S.design(3, pd=1.20, oftf=OFTF, clearance='mid', ducts=2, byp_t=0.002,
-                           bypass_fraction=0.0)
+                           bypass_fraction=0.0, duct_t=[0.0015, 0.003])
     if 'S' in names:
         t['S'] = S.design(3, pd=1.20, oftf=OFTF, clearance='mid',
                           regions={'lower': {'z_lo': 0.0, 'z_hi': L / 4, 'vf_coolant': 0.3},
@@ -79,7 +80,7 @@ def build_scn(c):
         aid = S.asm_id(ring, p) + 1
         q = 2500.0 * (0.5 + 0.25 * ((i * 3) % 5))
         power[str(aid)] = {'rings': RINGS[ty], 'nduct': NDUCT.get(ty, 1), 'cells': [0.0, L / 2, L],
-                           'q': q, 'pins': 'asym', 'duct': 'asym', 'cool': 'asym',
+                           'q': q, 'pins': 'asym', 'duct': None if c.get('nopow_duct') else 'asym', 'cool': 'asym',
                            'axial': ['up', 'mid'], 'seed': (c.get('seed', 0) + i) % 4}
     # DASSH sizes the core from the highest ring that holds an assembly
     scn = {'setup': {'calc_energy_balance': True},
@@ -89,6 +90,10 @@ def build_scn(c):
            'types': t, 'assign': assign, 'power': {'asm': power}}
     if c.get('dz'):
         scn['setup']['axial_mesh_size'] = c['dz']
+    if c.get('conv'):
+        # the low-flow wall treatment switched on for every assembly
+        scn['setup']['conv_approx'] = True
+        scn['setup']['conv_approx_dz_cutoff'] = 1.0
     if c.get('ftf') == 'outer-first':
         # the order of the two flat-to-flat values of a duct is free in the input
         for d in t.values():
@@ -282,8 +287,17 @@ def run_case(c):
             sc = max(abs(delivered), abs(rise), 1e-9)
             info['sweep_rel_imbalance'] = (rise - delivered) / sc
             if abs(rise - delivered) > 1e-8 * sc:
-                V.append(violation('sweep-balance', c, 'assembly + gap enthalpy rise != power delivered over the sweep',
-                                   rise, delivered, 1e-8 * sc))
+                qduct = sum(a._power_delivered['duct'] for a in rx.assemblies)
+                if c.get('conv') and qduct > 0 and not c.get('nopow_duct'):
+                    # low-flow wall treatment with heated walls: reported as the share of the wall heat that is lost
+                    V.append(violation('sweep-balance-conv-approx-heated-wall', c,
+                                       'conv_approx with heated duct walls: assembly + gap enthalpy rise != power delivered '
+                                       'over the sweep; observed = missing heat / heat generated in the duct walls '
+                                       '(rise %.6g W, delivered %.6g W)' % (rise, delivered),
+                                       float((delivered - rise) / qduct), 0.0, 1e-8 * sc / qduct))
+                else:
+                    V.append(violation('sweep-balance', c, 'assembly + gap enthalpy rise != power delivered over the sweep',
+                                       rise, delivered, 1e-8 * sc))
         # solver-side summary: region tallies agree with what the table prints
         r['states'] = nstep * (nasm + (1 if grec else 0)) + 1
         r['transitions'] = nstep * (nasm + (1 if grec else 0))
@@ -332,7 +346,18 @@ def cases(tier):
             out.append({'layout': lay, 'gapfrac': 0.0008, 'gap_model': 'flow', 'max_steps': 30})
         for lay in full:
             out.append({'layout': lay, 'gapfrac': 0.05, 'gap_model': 'flow', 'max_steps': 60, 'ftf': 'outer-first'})
+        # low-flow wall treatment (conv_approx) on every assembly; without wall heating the scheme is discretely
+        # conservative, with wall heating it is not (known finding K13)
+        for lay in (['A', 'B', 'U', 'D', 'C', 'A', 'D'], ['D', 'A', None, None, None, None, None],
+                    ['D', None, 'D', None, None, None, None], ['B', None, None, 'C', None, None, None]):
+            for nopow in (True, False):
+                out.append({'layout': lay, 'gapfrac': 0.05, 'gap_model': 'flow', 'max_steps': 60, 'conv': True,
+                            'nopow_duct': nopow})
     else:
+        for lay in layouts7(['A', 'B', 'C', 'U', 'D'], 1, 2):
+            for nopow in (True, False):
+                out.append({'layout': lay, 'gapfrac': 0.05, 'gap_model': 'flow', 'max_steps': 40, 'conv': True,
+                            'nopow_duct': nopow})
         for lay in layouts7(['A', 'B', 'U', 'D', 'S'], 2, 2):
             out.append({'layout': lay, 'gapfrac': 0.05, 'gap_model': 'flow', 'max_steps': 40, 'ftf': 'outer-first'})
         for lay in layouts7(['A', 'A2'], 2, 3):
